@@ -19,7 +19,7 @@ Definition p_op : parser op :=
   | 0 => pret (Established p) | 1 => pret (ConnClosed p) | 2 => pret (SubIn p) | 3 => pret (SubOut p)
   | 4 => pret (OpenFail p) | 5 => pret (DialFail p) | 6 => pret (HsIn p b) | 7 => pret (HsOut p b)
   | 8 => pret (Validate p b) | 9 => pret (Timer p) | 10 => pret (CmdOpen p) | 11 => pret (CmdClose p)
-  | 12 => pret (CmdForce p) | 13 => pret (TaskDie p b) | 14 => pret (Release p) | 15 => pret (KillChan p)
+  | 12 => pret (CmdForce p) | 13 => pret (TaskDie p b) | 14 => pret (Release p b) | 15 => pret (KillChan p)
   | 16 => pret (Gate p) | 17 => pret (Notify p) | 18 => pret (NotifyDie p b)
   | 20 => pret (GrabSink p) | 21 => pret (SendSync p a) | 22 => pret (SendAsync p a)
   | 23 => pret (SinkSync p a) | 24 => pret (SinkAsync p a)
@@ -423,6 +423,9 @@ Definition check_step (c : cfg) (m : omem) (o : op) (x : sobs) : omem * N :=
         | None => has_fail p (o_ev x) || existsb (fun cl => match cl with CDial _ => true | _ => false end) (o_calls x)
         | Some (Closed _) => has_fail p (o_ev x) || in_progress (o_ps post)
         | Some (VPending _) => has_fail p (o_ev x)
+        (* the handle lets the request through although the protocol tracks a stream as open: the user was told
+           Closed for a stream that is not closed; the request (connected peer, nothing in progress) is owed an answer *)
+        | Some (Open _) => has_fail p (o_ev x) || has_opened p (o_ev x)
         | _ => true
         end
     | _ => true
